@@ -436,12 +436,10 @@ CLAIMED = {
              "step), tau sigma invariant, min tracked along the whole run). Tie: translator (statement census, order and branch "
              "conditions pinned) + the REAL classes stepped over exact rationals (sqrt values logged and checked at 1e-15) and "
              "compared after every update, float stream for l1, identity of the caller's arrays."
-             ' Deepened: array-valued (diagonal) steps - IsProxW (prox in the T^-1-weighted inner product = what an elementwise prox with an array step computes), pdhg_fixed_point_iff_saddle_diag, pdhg_fejer_diag / _monotone / pdhg_fejer_run_diag under MetricPSD (2|<Ax,u>| <= <T^-1 x,x> + <Sigma^-1 u,u>; = tau sigma ||A||^2 <= 1 for scalars: metricPSD_scalar), metricPSD_pock_chambolle (the condition holds for the diagonal-preconditioning steps the harness generates), pdhg_residual_rate_partial (D_N + sum R_k <= D_0, some R_j <= D_0/N: asymptotic regularity at rate 1/N, NOT convergence to the minimiser).',
-        note="Trusted: Lean kernel; translator gen_c13; NOT proved: convergence of the PDHG iterates to the minimiser (with or without "
-             "acceleration) - decided by the search oracle on planted-solution "
-             "instances (incl. Nesterov's tridiagonal); __init__ values, in-place updates, resid and floating point are tied by "
-             "correspondence only.",
-        technique="Lean 4 proof (ISTA/FISTA rates, PDHG saddle fixed points and Fejer monotonicity) over translator-generated updates",
+             ' Deepened: array-valued (diagonal) steps - IsProxW (prox in the T^-1-weighted inner product = what an elementwise prox with an array step computes), pdhg_fixed_point_iff_saddle_diag, pdhg_fejer_diag / _monotone / pdhg_fejer_run_diag under MetricPSD (2|<Ax,u>| <= <T^-1 x,x> + <Sigma^-1 u,u>; = tau sigma ||A||^2 <= 1 for scalars: metricPSD_scalar), metricPSD_pock_chambolle (the condition holds for the diagonal-preconditioning steps the harness generates), pdhg_residual_rate_partial (D_N + sum R_k <= D_0, some R_j <= D_0/N: asymptotic regularity at rate 1/N, NOT convergence to the minimiser).'
+             " Deepened (round 3, Props/C13Conv.lean, Props/C13Accel.lean, Lemmas/C13Conv.lean): CONVERGENCE OF THE ITERATES in finite dimension - ista_step_nonexpansive (prox 1-Lipschitz from its variational characterisation: isProx_nonexpansive; gradient step nonexpansive by Baillon-Haddad: grad_cocoercive), ista_fixed_iff_minimiser, ista_asymptotic_regularity (sum ||x_{k+1}-x_k||^2 <= 2 alpha (F(x_0)-F*)), ista_iterates_converge (alpha <= 1/L, a minimiser exists => x_k -> a minimiser); pdhg_iterates_converge (+ _scalar): constant positive scalar or array steps, theta = 1, MetricPSD (tau sigma ||A||^2 <= 1, EQUALITY ALLOWED - the Opial argument opial_core is run in the possibly degenerate metric of the steps: cpMap_lipschitz_metric shows one sweep depends on its argument only through M = [[T^-1,-A^H],[-A,Sigma^-1]], metric_range_le), a saddle point exists => (x_k, u_k) -> a saddle point; ERGODIC GAP pdhg_gap_step_diag / pdhg_ergodic_gap: L(X_N, v) - L(w, U_N) <= D_0(w,v)/(2N) for every (w, v), X_N = mean(x_1..x_N), U_N = mean(u_2..u_{N+1}) (Chambolle-Pock 2011 Thm 1 in the pairing the code couples); ACCELERATED RATE (gamma_primal = gamma > 0, g gamma-strongly convex in Mathlib's StrongConvexOn, scalar steps, tau_0 sigma_0 ||A||^2 <= 1): pdhg_accel_lyapunov (one update does not increase Psi = (|x-x*|^2/(2 tau) + |u-u*|^2/(2 sigma))/tau + |x_ext-x|^2/(2 tau^2) + <A(x_ext-x),u-u*>/tau), pdhg_accel_energy_run, pdhg_accel_tau_decay (1/tau_k >= 1/tau_0 + k gamma/(1+gamma tau_0)), pdhg_accel_dist_tau, pdhg_accel_rate (|x_N-x*|^2 <= (|x_0-x*|^2/tau_0^2 + |u_0-u*|^2/(tau_0 sigma_0)) / (1/tau_0 + N gamma/(1+gamma tau_0))^2 = O(1/N^2), CP Thm 2). pdThetaP_eq / pdThetaD_eq / gmT_real hold up to ring normalisation of the radicand, so a commuted sum in the source does not alarm. Dual acceleration (gamma_dual = gamma > 0, f* gamma-strongly convex; the code rescales sigma *= theta, tau /= theta and still extrapolates the primal variable): pdhg_accel_lyapunov_dual (Psi_d = (|x-x*|^2/(2 tau) + |u-u*|^2/(2 sigma))/sigma + <A(x_ext-x),u-u*>/sigma + |x_ext-x|^2/(2 tau sigma) never increases, tau sigma ||A||^2 <= 1), pdhg_accel_run_dual, pdhg_accel_energy_run_dual, pdhg_accel_sigma_decay, pdhg_accel_rate_dual ((1 - tau_0 sigma_0 ||A||^2) |u_N-u*|^2 <= (|u_0-u*|^2/sigma_0^2 + |x_0-x*|^2/(tau_0 sigma_0)) / (1/sigma_0 + N gamma/(1+gamma sigma_0))^2: O(1/N^2) under the STRICT step condition).",
+        note="Trusted: Lean kernel; translator gen_c13; NOT proved: the accelerated rate for gamma_dual > 0 at the boundary tau_0 sigma_0 ||A||^2 = 1 (proved under the strict inequality) and for array-valued steps with acceleration (the code rescales with min|tau| / min|sigma|), convergence of the FISTA iterates (only the objective rate), infinite dimension (weak convergence) - these are decided by the search oracle on planted-solution instances (incl. Nesterov's tridiagonal); __init__ values, in-place updates, resid and floating point are tied by correspondence only.",
+        technique="Lean 4 proof (ISTA/FISTA rates, convergence of the ISTA and PDHG iterates, PDHG saddle fixed points, Fejer monotonicity, ergodic gap, accelerated O(1/N^2) rate) over translator-generated updates",
         design="DESIGN.md §3 C13, §9"),
     "C15": dict(
         text="Lean 4 theorems about definitions the translator regenerates from alg.py / app.py (Gen/AlgDone.lean: Alg counter init "
